@@ -236,6 +236,17 @@ KeepKeysPruneSet(T, R, n, K1) ==
       sibs == UNION {{Append(SubSeq(q, 1, f - 1), 3 - q[f]) : f \in 1..Len(q)} : q \in KP}
   IN {a \in sibs : ~\E q \in KP : PathPrefix(a, q)}
 
+\* The sibling positions along the way of key k when forks are taken by the key's bits whatever the labels say (a prover
+\* may have visited - and pruned - them before it finds out that the key is absent).  Only used to name findings.
+RECURSIVE BlindSibs(_, _, _, _, _)
+BlindSibs(T, i, n, key, path) ==
+  LET c == T[i]  lb == Label(c.b, n) IN
+  IF c.x # Ordinary \/ ~lb.ok THEN {}
+  ELSE LET ls == Len(lb.s) IN
+       IF ls >= n \/ Len(c.r) # 2 THEN {}
+       ELSE LET pos == key[ls + 1] + 1 IN
+            {Append(path, 3 - pos)} \cup BlindSibs(T, c.r[pos], n - ls - 1, SubSeq(key, ls + 2, n), Append(path, pos))
+
 \* Input classes of a (dictionary, key) pair, used to name findings:
 \*   "twin"     a fork on the path of k has two children that are the same cell (value)
 \*   "valueref" a cell referenced by k's value is the same cell (value) as the sibling sub-tree at a fork on the path
